@@ -23,7 +23,7 @@ PROP = "C02"
 KINDS = ["ALA", "PRO", "GLY", "WAT", "LIG"]
 
 
-def _lines(chains, final_ter=True):
+def _lines(chains, final_ter=True, hydrogens=False, blank_elements=False):
     """chains: list of (chain id, [(kind, has_oxt)]) -> PDB lines with peptide geometry"""
     lines = []
     serial = 1
@@ -32,7 +32,7 @@ def _lines(chains, final_ter=True):
         for i, (kind, oxt) in enumerate(residues):
             off = (origin[0] - 3.8 * i, origin[1], origin[2])
             if kind in ("ALA", "PRO", "GLY"):
-                rl = fixtures.residue_lines(kind, cid, i + 1, serial, off)
+                rl = fixtures.residue_lines(kind, cid, i + 1, serial, off, heavy_only=not hydrogens)
                 if oxt:
                     ref = fixtures.pristine_definition().map["C" + kind].map["OXT"]
                     rl.append(fixtures.atom_line(serial + len(rl), "OXT", kind, cid, i + 1, ref.x + off[0], ref.y + off[1], ref.z + off[2]))
@@ -44,6 +44,8 @@ def _lines(chains, final_ter=True):
             lines += rl
         if final_ter or ci < len(chains) - 1:
             lines.append("TER")
+    if blank_elements:
+        lines = [ln[:66] if ln.startswith(("ATOM", "HETATM")) else ln for ln in lines]
     return lines
 
 
@@ -65,8 +67,12 @@ def _expected(chains, cyclic):
             whole = len(segs) == 1
             if whole and cyclic.get(ci):
                 continue
-            if amino[seg[0]]:
-                nterm.add((ci, seg[0]))
+            # first amino acid of the segment after leading non-polymer residues (mirror image of the C-terminal rule)
+            j0 = 0
+            while j0 < len(seg) and not amino[seg[j0]]:
+                j0 += 1
+            if j0 < len(seg):
+                nterm.add((ci, seg[j0]))
             # last amino acid of the segment before trailing non-polymer residues
             j = len(seg) - 1
             while j >= 0 and not amino[seg[j]]:
@@ -100,10 +106,17 @@ def h_termini(eng, layout, first=None, na=3):
         b = [(KINDS[eng.choice(f"b{i}", 3)], False) for i in range(2)]
         chains = [("", a), ("", b)]
         final_ter = bool(eng.flag("final_ter"))
+    elif layout == "protonated-input":
+        # the input already carries its hydrogens (e.g. a PQR / --pdb-output file fed back in), with or without element columns
+        a = [(KINDS[eng.choice(f"a{i}", 3)], False) for i in range(2)]
+        chains = [("A", a), ("B", [("GLY", False), ("ALA", False)])]
+        input_kw = dict(hydrogens=True, blank_elements=bool(eng.flag("blank_element_columns")))
     else:
         raise KeyError(layout)
     neutraln, neutralc = eng.flag("neutraln"), eng.flag("neutralc")
-    bm, _ = fixtures.biomolecule(_lines(chains, final_ter if layout == "blank-two-chains" else True))
+    if layout != "protonated-input":
+        input_kw = {}
+    bm, _ = fixtures.biomolecule(_lines(chains, final_ter if layout == "blank-two-chains" else True, **input_kw))
     # closure distance of every chain (N of first, C of last) symbolic
     close = {}
     pairs = {}
@@ -259,6 +272,7 @@ def obligations(tier):
         Obligation("termini-hidden-ends", h_termini, dict(layout="hidden-ends"), group="termini", time_cap=3000, max_paths=100000),
         Obligation("termini-blank-chain", h_termini, dict(layout="blank-chain"), group="termini", time_cap=1500, max_paths=100000),
         Obligation("termini-blank-two-chains", h_termini, dict(layout="blank-two-chains"), group="termini", time_cap=1500, max_paths=100000),
+        Obligation("termini-protonated-input", h_termini, dict(layout="protonated-input"), group="termini", time_cap=1500, max_paths=100000),
         Obligation("guard", h_guard, {}, group="guard", time_cap=600),
     ]
     for n in (1, 2) if tier == "quick" else (1, 2, 3):
